@@ -282,12 +282,14 @@ def firstPinOK (s : CS) : Bool :=
 /-! ### C10: rollback and supersession put traffic back on stable first -/
 
 /-- a rollback or a newer revision is pending: the workload's update revision is no longer the one this rollout releases
-    (still InRolling: not yet noticed or being reset), or the rollout is cancelling -/
+    (still InRolling: not yet noticed or being reset) while not every pod runs it yet, or the rollout is cancelling -/
 def rbPending (s : CS) : Bool :=
   !s.gone && s.ro.phase == .progressing &&
   (s.ro.reason == .cancelling ||
    (s.ro.reason == .inRolling &&
-    (match s.ro.sub, s.wl with | some sub, some w => sub.canaryRev != "" && sub.canaryRev != w.updateRevision | _, _ => false)))
+    (match s.ro.sub, s.wl with
+     | some sub, some w => sub.canaryRev != "" && sub.canaryRev != w.updateRevision && w.updated != w.statusReplicas
+     | _, _ => false)))
 
 /-- the canary route carries weight -/
 def routeLive (n : Net) : Bool := match n.canaryIng with | some w => decide (0 < w) | none => false
